@@ -148,7 +148,7 @@ impl <T: ArrayElement> ArraySplit<T> for Array<T> {
 
     fn array_split(&self, parts: usize, axis: Option<usize>) -> Result<Vec<Self>, ArrayError> {
         if parts == 0 { return Err(ArrayError::ParameterError { param: "parts", message: "number of sections must be larger than 0", }) }
-        self.axis_opt_in_bounds(axis)?;
+        self.axis_in_bounds(axis.unwrap_or(0))?;
         if self.is_empty()? { return Ok(vec![self.clone()]) }
 
         let axis = axis.unwrap_or(0);
@@ -190,7 +190,7 @@ impl <T: ArrayElement> ArraySplit<T> for Array<T> {
     }
 
     fn split(&self, parts: usize, axis: Option<usize>) -> Result<Vec<Self>, ArrayError> {
-        self.axis_opt_in_bounds(axis)?;
+        self.axis_in_bounds(axis.unwrap_or(0))?;
         if parts == 0 {
             Err(ArrayError::ParameterError { param: "parts", message: "number of sections must be larger than 0", })
         } else {
